@@ -419,6 +419,10 @@ val m_unpack : ty3 list -> pyobj list -> pyobj list result
 
 val m_unwrap1 : pyobj -> pyobj
 
+val run_segs :
+  (seg -> node list -> node list result) -> seg list -> node list -> node
+  list result
+
 val m_seg : envcfg -> json -> seg -> node list -> node list result
 
 val m_segs : envcfg -> json -> seg list -> node list -> node list result
@@ -463,6 +467,9 @@ val coerce : ty3 -> ty3 -> sval -> sval
 val sval_of_pyobj : ty3 -> pyobj -> sval
 
 val fn_sem : (bool -> str -> str -> bool) -> fdecl -> sval list -> sval
+
+val run_segs_s :
+  (seg -> node list -> node list) -> seg list -> node list -> node list
 
 val s_seg :
   registry -> (bool -> str -> str -> bool) -> json -> seg -> node list ->
